@@ -22,48 +22,7 @@ ASSUMPTIONS = [
 ]
 
 
-def J(*parts):
-    out = []
-    for p in parts:
-        if isinstance(p, (list, tuple)):
-            out += [str(q) for q in p]
-        else:
-            out.append(str(p))
-    return " ".join(out)
-
-
-def boxed(f):
-    """run `f` on *fresh clones* of the operands bound as lambda defaults, so that a case can never
-    disturb the operands or expected values of another one"""
-    box = {}
-    defaults = f.__defaults__ or ()
-
-    def impl():
-        fresh = tuple(clone_any(v) for v in defaults)
-        g = types.FunctionType(f.__code__, f.__globals__, f.__name__, fresh, f.__closure__)
-        box["r"] = g()
-        return outcome_of(box["r"])
-    return box, impl
-
-
-def chk_tt(box, dense_expected, dtype, ranks=None, N=None):
-    def oracle():
-        if "r" not in box:
-            return "the operation raised instead of returning a TT"
-        r = box["r"]
-        if not isinstance(r, torchtt.TT):
-            return "result is %s, not a TT" % type(r).__name__
-        e = exact_equal(dense_of(r), dense_expected())
-        if e:
-            return "dense value differs: " + e
-        if any(c.dtype != dtype for c in r.cores):
-            return "dtype not preserved: %s vs operand %s" % ([str(c.dtype) for c in r.cores], dtype)
-        if ranks is not None and [int(v) for v in r.R] != list(ranks):
-            return "rank structure %s, documented %s" % (list(r.R), list(ranks))
-        if N is not None and list(r.N) != list(N):
-            return "shape %s, expected %s" % (list(r.N), list(N))
-        return None
-    return oracle
+from util import J, boxed, chk_tt
 
 
 def tdt_of(dtype):
